@@ -312,6 +312,25 @@ func runHarness(P *Program, h *HarnessSpec, opts RunOpts) (res *HarnessResult) {
 	}
 	defer ex.sol.Close()
 	res.Unwind = ex.unwind
+	if os.Getenv("VERIF_TRACE") != "" {
+		ex.sol.onSlow = func(sec float64, r SatResult, n int) {
+			where := ""
+			if ex.cur != nil {
+				where = ex.pos(ex.cur)
+			}
+			fmt.Fprintf(os.Stderr, "[%s] slow query %.1fs %v (%d bytes new) at %s; paths=%d q=%d terms=%d\n", h.Name, sec, r, n, where, ex.paths, ex.sol.Queries, ex.tt.next)
+		}
+		go func() {
+			for {
+				time.Sleep(10 * time.Second)
+				where := ""
+				if c := ex.cur; c != nil {
+					where = ex.pos(c)
+				}
+				fmt.Fprintf(os.Stderr, "[%s] t=%.0fs q=%d solver=%.1fs terms=%d forks=%d at %s\n", h.Name, time.Since(start).Seconds(), ex.sol.Queries, ex.sol.Seconds, ex.tt.next, ex.forks, where)
+			}
+		}()
+	}
 	finish := func() {
 		res.Paths, res.DeadPaths, res.Forks, res.Merges = ex.paths, ex.deadPaths, ex.forks, ex.merges
 		res.Obligations, res.Trivial, res.Asserts = ex.obligations, ex.obTrivial, ex.asserts
